@@ -321,6 +321,10 @@ static std::string make_line1(Rng &rng, const Opts &o, bool bmat) {
         if (rp.rk == 2 && m > 3) { rp.rk = rng.range(0, 1); }      // SPAI-0 on blocks takes Frobenius norms (rsqrt: 2^-32 denominators): keep those small
     }
     if (rp.rk == 2 && h.kind == 3 && h.A.n > 4 * h.b) rp.rk = rng.range(0, 1);
+    // keep the rational growth bounded: the 2^-32 denominators of rsqrt (SPAI-0, Chebyshev) through a smoothed three-level
+    // hierarchy, and the block valued Omega = inverse(denum) * num of smoothed_aggr_emin on larger inputs
+    if (h.kind != 0 && (rp.rk == 2 || rp.rk == 4) && h.ml > 2) h.ml = 2;
+    if (h.kind == 3 && h.A.n > 12 && h.ml > 2) h.ml = 2;
     Line l; l << (bmat ? "bamg_bmat" : "bamg_apply") << h.b << h.kind << h.s << h.ce << h.dc << h.ml << h.A;
     l << rp.rk; if (rp.rk == 0 || rp.rk == 3) l << rp.damping; else if (rp.rk == 4) { l << rp.degree << rp.higher << rp.lower << rp.scale; } else if (rp.rk >= 5) l << rp.k << rp.damping;
     l << t.npre << t.npost << t.ncycle << t.pre_cycles;
@@ -335,7 +339,7 @@ static std::string make_line(Rng &rng, const Opts &o, bool bmat) {
 }
 
 static void generate(Rng &rng, const Opts &o, std::vector<std::string> &lines) {
-    long N = o.cases > 0 ? o.cases : (o.thorough() ? 800 : 100);
+    long N = o.cases > 0 ? o.cases : (o.thorough() ? 500 : 100);
     for (long k = 0; k < N; ++k) lines.push_back(make_line(rng, o, k % 2 == 1));
     lines.push_back("bamg_apply 2 0 1/2 1 1 10 3 3 1 0 1 1 1 1 1 2 1 1 1 1 1 1 4 3 1 1 1 3 1 1 1 3 1 1 1 3 2 2 2 1 1");     // size not divisible by the block size
     lines.push_back("bamg_bmat 2 2 1 1 1 10 2 2 1 0 1 1 1 1 1 1 1 1 1");                                                // ruge_stuben: scalar only
